@@ -92,7 +92,25 @@ func (e *Exec) Generate() (err error) {
 		}
 		if pkg != nil {
 			for _, inv := range e.DB.PkgInvariants[pkg.Pkg.Path()] {
-				e.assume(st, e.evalSpecBool(inv, map[string]specVar{}, st, st, "package invariant"))
+				// an invariant about a package-level variable the code no longer
+				// has is not assumed (less is known: sound) and noted
+				ok := func() (ok bool) {
+					defer func() {
+						if r := recover(); r != nil {
+							se, isSpec := r.(specError)
+							if !isSpec {
+								panic(r)
+							}
+							e.note("package invariant `%s` not assumed: %s", inv.Text, se.msg)
+							ok = false
+						}
+					}()
+					e.assume(st, e.evalSpecBool(inv, map[string]specVar{}, st, st, "package invariant"))
+					return true
+				}()
+				if !ok {
+					continue
+				}
 				e.Externs["package invariant (assumed, established by init): "+inv.Text] = true
 			}
 		}
